@@ -24,7 +24,7 @@ func genC18(seed int64, n int) *c18Prog {
 	p := &c18Prog{id: fmt.Sprintf("seq%d", seed), nin: 2}
 	ints := []string{"in0", "in1"}
 	var funcs, ptrs []string
-	hasFmt, hasType := false, false
+	hasFmt, hasType, hasTot := false, false, false
 	newName := func(prefix string) string {
 		return fmt.Sprintf("%s%d", prefix, len(p.globals))
 	}
@@ -33,6 +33,9 @@ func genC18(seed int64, n int) *c18Prog {
 		k := rng.Intn(12)
 		if rng.Intn(3) == 0 {
 			k = 13 + rng.Intn(3)
+		}
+		if rng.Intn(6) == 0 {
+			k = 16
 		}
 		if last && rng.Intn(2) == 0 {
 			k = 12
@@ -131,6 +134,27 @@ func genC18(seed int64, n int) *c18Prog {
 			default:
 				p.stmts = append(p.stmts, fmt.Sprintf("if %s != %s {\n\tvar bb byte = 250\n\tbb += 10\n\t%s += int(bb)\n} else {\n\ts := \"ab\"\n\t%s += len(s)\n}", x, y, x, x))
 			}
+		case 16:
+			// the header of a top-level block redeclares the name of a global: after the block the name is the global again
+			if x == "in0" || x == "in1" || y == x {
+				continue
+			}
+			if !hasTot {
+				p.stmts = append(p.stmts, "tot := 0")
+				p.globals = append(p.globals, "tot")
+				hasTot = true
+				continue
+			}
+			switch rng.Intn(3) {
+			case 0:
+				p.stmts = append(p.stmts, fmt.Sprintf("for %s := 0; %s < 3; %s++ {\n\ttot += %s\n}", x, x, x, x))
+			case 1:
+				p.stmts = append(p.stmts, fmt.Sprintf("if %s := %s + 1; %s > 2 {\n\ttot += %s\n}", x, y, x, x))
+			default:
+				p.stmts = append(p.stmts, fmt.Sprintf("for %s, e := range []int{%s, 7} {\n\ttot += %s * e\n}", x, y, x))
+			}
+			// and the global is read again at top level right afterwards
+			p.stmts = append(p.stmts, fmt.Sprintf("tot += %s", x))
 		case 11:
 			v := newName("s")
 			p.stmts = append(p.stmts, fmt.Sprintf("%s := []int{%s, %s}", v, x, y))
